@@ -49,6 +49,12 @@ pub struct Ctx {
     pub hist: BTreeMap<String, u64>,
     pub samples: Vec<String>,
     pub oracle_evals: u64,
+    /// the last few cases run on this thread: a change that keeps state between calls (a cache,
+    /// a thread-local) fails only after a particular sequence, which the replay then has to name
+    pub recent: std::collections::VecDeque<String>,
+    /// answers of the canary calls on fresh threads (purity oracle, see canary.rs)
+    pub canary_base: Vec<String>,
+    pub canary_failed: bool,
 }
 
 pub fn hash_of<T: Hash>(t: &T) -> u64 {
@@ -81,6 +87,9 @@ impl Ctx {
             hist: BTreeMap::new(),
             samples: Vec::new(),
             oracle_evals: 0,
+            recent: std::collections::VecDeque::new(),
+            canary_base: crate::canary::baseline(),
+            canary_failed: false,
         }
     }
 
@@ -111,10 +120,38 @@ impl Ctx {
         }
     }
 
+    /// purity oracle: the canary calls must answer on this thread what they answered on fresh
+    /// threads; `after` names what ran just before
+    pub fn canary_check(&mut self, after: &str) {
+        if self.canary_failed {
+            return;
+        }
+        self.count("purity_canary_rounds");
+        if let Some((call, now, fresh)) = crate::canary::differs(&self.canary_base) {
+            self.canary_failed = true;
+            let short = |s: &str| if s.len() > 400 { format!("{}…", s.chars().take(400).collect::<String>()) } else { s.to_string() };
+            self.fail(
+                "a call returns what the same call returns on a fresh thread (no state is carried from one call to the next)",
+                format!("after {}: {} = {} here, but {} on a fresh thread", after, call, short(&now), short(&fresh)),
+                None,
+            );
+        } else {
+            self.oracle_ok();
+        }
+    }
+
     /// a correspondence case: the real result and the request for the model
     pub fn case(&mut self, op: Op, desc: String) {
         self.evaluations += 1;
+        if self.evaluations % 4000 == 0 {
+            let d = desc.clone();
+            self.canary_check(&format!("the case {}", if d.len() > 300 { d.chars().take(300).collect::<String>() } else { d }));
+        }
         self.last_desc = desc.clone();
+        if self.recent.len() >= 4 {
+            self.recent.pop_front();
+        }
+        self.recent.push_back(if desc.len() > 300 { format!("{}…", desc.chars().take(300).collect::<String>()) } else { desc.clone() });
         if self.samples.len() < 6 && (self.evaluations % 997 == 1 || self.evaluations < 3) {
             self.samples.push(format!("{} => {}", desc, op.real_short()));
         }
@@ -146,6 +183,9 @@ impl Ctx {
         }
         self.n_oracle_fails += 1;
         if self.oracle_fails.len() < 50 {
+            // the calls made on this thread just before (the failing call itself is usually the last)
+            let before: Vec<String> = self.recent.iter().cloned().collect();
+            let desc = if before.is_empty() { desc } else { format!("{}  [calls on this thread just before, oldest first: {}]", desc, before.join(" ;; ")) };
             self.oracle_fails.push(OracleFail { clause: clause.to_string(), desc, known: None });
         }
     }
@@ -171,13 +211,17 @@ impl Ctx {
         let text = String::from_utf8_lossy(&out.stdout);
         let mut replies = text.lines();
         replies.next(); // reply to the feature line
-        for p in pend {
+        let short = |d: &str| if d.len() > 300 { format!("{}…", d.chars().take(300).collect::<String>()) } else { d.to_string() };
+        let descs: Vec<String> = pend.iter().map(|p| short(&p.desc)).collect();
+        for (i, p) in pend.into_iter().enumerate() {
             let model = replies.next().unwrap_or("<no reply: driver died>").to_string();
             self.compared += 1;
             if model != p.real {
                 self.n_disagreements += 1;
                 if self.disagreements.len() < 50 {
-                    self.disagreements.push(Disagreement { desc: p.desc, req: p.req, real: p.real, model });
+                    let before = descs[i.saturating_sub(3)..i].join(" ;; ");
+                    let desc = if before.is_empty() { p.desc } else { format!("{}  [calls on this thread just before, oldest first: {}]", p.desc, before) };
+                    self.disagreements.push(Disagreement { desc, req: p.req, real: p.real, model });
                 }
             }
         }
